@@ -427,6 +427,7 @@ def _run(chk, args) -> int:
         step = max(1, len(sents) // (6000 if thorough else 500))
         sample = [j for _, j in sents[::step]]
         all_tables_cases(chk, tb, sample)
+        writer_option_cases(chk)
         lang = [j for _, j in sents if in_lang.get(json.dumps(j))]
         standard_denotes(chk, tb, rng, lang[::max(1, len(lang) // (8000 if thorough else 700))])
     boundary(chk)
@@ -558,6 +559,51 @@ def all_tables_cases(chk: Check, tb, sample):
                 if not ok and not feats:
                     chk.notes.setdefault('standard_ascii_roundtrip_other_failures', []).append(
                         dict(sentence=ser, written=render_cps(r_w), parsed=got))
+
+
+def writer_option_cases(chk: Check):
+    """The standard writer's options (max_infix, identity_infix, drop_parens) change the spelling, never the
+    sentence: under every option combination distinct sentences render to distinct strings and the standard
+    parser reads the rendering back (implementation against itself; predicates of arity 2..4 whose later
+    parameters differ)."""
+    a, b, c, d, x = ['c', 0, 0], ['c', 1, 0], ['c', 2, 0], ['c', 3, 0], ['v', 0, 0]
+    R2, H3, G4 = [0, 0, 2], [1, 0, 3], [2, 0, 4]
+    atoms = [['P', R2, [a, b]], ['P', R2, [b, a]], ['P', R2, [a, a]],
+             ['P', H3, [a, b, a]], ['P', H3, [a, b, c]], ['P', H3, [a, c, b]], ['P', H3, [b, a, c]],
+             ['P', G4, [a, b, c, d]], ['P', G4, [a, b, c, a]], ['P', G4, [a, b, d, c]],
+             ['P', 'Identity', [a, b]], ['P', 'Identity', [b, a]]]
+    sents = list(atoms)
+    sents += [['U', 'Negation', t] for t in atoms[:8]]
+    sents += [['B', 'Conjunction', atoms[3], atoms[4]], ['B', 'Conjunction', atoms[4], atoms[3]],
+              ['Q', 'Universal', [0, 0], ['P', H3, [x, b, a]]], ['Q', 'Universal', [0, 0], ['P', H3, [a, b, x]]],
+              ['Q', 'Existential', [0, 0], ['P', G4, [a, x, c, x]]], ['Q', 'Existential', [0, 0], ['P', G4, [a, x, c, d]]]]
+    jobs = []
+    for mi in (0, 2, 3, 4, 5):
+        for ii in (True, False):
+            for dp in (True, False):
+                jobs.append(dict(notation='standard', format='text', dialect='ascii', sents=sents, parse={},
+                                 opts=dict(max_infix=mi, identity_infix=ii, drop_parens=dp)))
+    real = probe_json('probe_parse.py', ['write'], stdin=json.dumps(jobs), timeout=1800)
+    for job, rr in zip(jobs, real):
+        seen = {}
+        for j, r in zip(sents, rr):
+            ser = pl.ser_json(j)
+            chk.case(['writer-options', job['opts'], j], nontrivial=True)
+            chk.count('writer_options', json.dumps(job['opts'], sort_keys=True))
+            rep = dict(kind='roundtrip', notation='standard', format='text', dialect='ascii', opts=job['opts'], sentence=j)
+            w = r.get('written')
+            if not isinstance(w, list):
+                chk.violation('standard/text/ascii:options:writer-raises', f'standard writer with {job["opts"]} on {ser}: {w or r.get("build")}', rep)
+                continue
+            if tuple(w) in seen and seen[tuple(w)] != ser:
+                chk.violation('standard/text/ascii:options:not-injective',
+                              f'{seen[tuple(w)]} and {ser} both render to {render_cps(w)!r} with writer options {job["opts"]}',
+                              dict(rep, other=seen[tuple(w)], expect_distinct=True))
+            seen[tuple(w)] = ser
+            if r.get('parsed_auto') != 'OK ' + ser:
+                chk.violation('standard/text/ascii:options:roundtrip',
+                              f'{ser} written with options {job["opts"]} as {render_cps(w)!r} parses to {str(r.get("parsed_auto"))[:120]!r}',
+                              dict(rep, expect='OK ' + ser, mode='auto'))
 
 
 _LANG = {}
